@@ -317,3 +317,39 @@ Definition writer_loop_exits_only_when_done : bool :=
   negb (Nat.eqb (length t) 0) &&
   forallb (fun p => implb (snd p) (occurs "arm Arm Recv ""e.doneCh""" (fst p) && negb (occurs "e.writer.Write" (fst p)))) t &&
   existsb (fun p => snd p) t.
+
+(* ---------- fifth batch: the frame reader ---------- *)
+Definition vocabulary (fn : string) (allowed : list string) : bool :=
+  all_paths fn (forallb (fun c => is_arm c || mem_str c allowed)).
+
+(* C05: the length prefix is decoded first and once; on the ways out taken for a prefix that cannot be read or is zero,
+   negative or above the maximum (the paths without newFrameReader - exactly two of them make a PacketizerError) nothing of
+   the payload is touched: no ReadByte, no decodeRPC, no drain *)
+Definition nextframe_paths_prefix_first : bool :=
+  all_paths "packetizer.NextFrame"
+    (fun tr => match tr with a :: _ => String.eqb a "p.lengthDecoder.Decode" | [] => false end
+               && Nat.eqb (count_of "p.lengthDecoder.Decode" tr) 1) &&
+  all_paths "packetizer.NextFrame"
+    (fun tr => implb (negb (occurs "newFrameReader" tr))
+                     (negb (occurs "r.ReadByte" tr) && negb (occurs "decodeRPC" tr) && negb (occurs "r.drain" tr))) &&
+  Nat.eqb (length (filter (fun tr => occurs "NewPacketizerError" tr && negb (occurs "newFrameReader" tr))
+                          (traces_of "packetizer.NextFrame"))) 2 &&
+  all_paths "packetizer.NextFrame" (fun tr => implb (occurs "r.ReadByte" tr) (in_order ["newFrameReader"; "r.ReadByte"] tr)) &&
+  vocabulary "packetizer.NextFrame" ["p.lengthDecoder.Decode"; "NewPacketizerError"; "newFrameReader"; "r.drain";
+                                     "shouldContinue"; "r.ReadByte"; "int"; "decodeRPC"].
+
+(* C04: once a frame reader exists for a frame, every way out - bad header byte, decode error, unknown method, success - drains
+   it exactly once, after everything else; drain is ONE Discard of what remains and nothing else *)
+Definition nextframe_paths_drain_always : bool :=
+  all_paths "packetizer.NextFrame"
+    (fun tr => implb (occurs "newFrameReader" tr)
+                     (Nat.eqb (count_of "r.drain" tr) 1 && Nat.eqb (count_of "r.ReadByte" tr) 1
+                      && match after_first "r.drain" tr with
+                         | Some rest => negb (occurs "r.ReadByte" rest) && negb (occurs "decodeRPC" rest) && negb (occurs "newFrameReader" rest)
+                         | None => false end)) &&
+  all_paths "packetizer.NextFrame" (at_most_once "decodeRPC") &&
+  all_paths "packetizer.NextFrame" (at_most_once "newFrameReader") &&
+  some_path "packetizer.NextFrame" (fun tr => occurs "NewPacketizerError" tr && occurs "r.drain" tr) &&
+  some_path "packetizer.NextFrame" (occurs "decodeRPC") &&
+  all_paths "frameReader.drain" (fun tr => Nat.eqb (count_of "l.r.Discard" tr) 1) &&
+  vocabulary "frameReader.drain" ["int"; "l.r.Discard"; "int32"; "fmt.Errorf"].
